@@ -1218,7 +1218,9 @@ class MultiOrState(SubsetState):
         super(MultiOrState, self).__init__()
         if len(states) < 1:
             raise ValueError("states should contain at least one subset state")
-        self.states = states
+        # Keep our own list, so that neither the caller's list nor a copy of
+        # this state (see copy()) shares it
+        self.states = list(states)
 
     def copy(self):
         return type(self)(self.states)
